@@ -135,7 +135,7 @@ func (e *env) history(user string) []string {
 	defer c.Close()
 	k := e.rng.Intn(4)
 	for i := 0; i < k; i++ {
-		switch e.rng.Intn(6) {
+		switch e.rng.Intn(8) {
 		case 0:
 			c.Append("INBOX", "", "From: a@b\r\nTo: c@d\r\nSubject: history\r\n\r\nappended\r\n")
 			done = append(done, "append")
@@ -161,6 +161,16 @@ func (e *env) history(user string) []string {
 			c.Cmd("SELECT INBOX")
 			c.Cmd("COPY 1 Filed")
 			done = append(done, "copy-out")
+		case 6:
+			// the delivery folder is renamed away while the delivery service keeps running: the next message for it is
+			// filed in a folder of that name again, not in the renamed one
+			e.nArch++
+			c.Cmd(fmt.Sprintf("RENAME Filed FiledOld%d", e.nArch))
+			done = append(done, "rename-delivery-folder")
+		case 7:
+			e.nArch++
+			c.Cmd(fmt.Sprintf("RENAME Spam SpamOld%d", e.nArch))
+			done = append(done, "rename-spam-folder")
 		}
 	}
 	return done
@@ -204,6 +214,14 @@ var txSeq int
 const quotaLimit = 60000
 
 func (e *env) play(t txCase) {
+	if t.shape < 0 {
+		// not a transaction: the recipient renames its delivery folder (-1: Filed, -2: Spam) over IMAP
+		c := e.w.Login(t.rcpts[0])
+		e.nArch++
+		c.Cmd(fmt.Sprintf("RENAME %s %sOld%d", map[int]string{-1: "Filed", -2: "Spam"}[t.shape], map[int]string{-1: "Filed", -2: "Spam"}[t.shape], e.nArch))
+		c.Close()
+		return
+	}
 	txSeq++
 	tok := fmt.Sprintf("c01tok%dx%d", e.o.Seed, txSeq)
 	shs := shapes(e.rng, tok)
@@ -247,8 +265,8 @@ func (e *env) play(t txCase) {
 	type tgt struct{ owner, as, box string }
 	var tgts []tgt
 	for _, r := range rcpts {
-		if r == "team@example.com" {
-			tgts = append(tgts, tgt{"role:" + hx.H(r), "u0@example.com", "Roles/team@example.com/" + target})
+		if r == "team@example.com" || r == "desk@example.com" {
+			tgts = append(tgts, tgt{"role:" + hx.H(r), "u0@example.com", "Roles/" + r + "/" + target})
 		} else {
 			p := strings.SplitN(r, "@", 2)
 			tgts = append(tgts, tgt{"user:" + hx.H(p[0]) + "@" + hx.H(p[1]), r, target})
@@ -295,7 +313,7 @@ func (e *env) play(t txCase) {
 		for _, other := range []string{"INBOX", "Filed", "Spam"} {
 			ob := other
 			if strings.HasPrefix(tg.box, "Roles/") {
-				ob = "Roles/team@example.com/" + other
+				ob = tg.box[:strings.LastIndex(tg.box, "/")+1] + other
 			}
 			if ob != tg.box && len(copies(e.w, tg.as, ob, tok)) > 0 {
 				e.rep.Violate("impl-violation", "folder chosen for the recipient", fmt.Sprintf("%s: a copy for %s appeared in %s, not only in %s", t.line(), tg.as, ob, tg.box), replay)
@@ -434,6 +452,13 @@ func main() {
 	}
 	u0, _ := db.GetUserByEmail(shared, "u0@example.com")
 	db.AssignUserToRoleMailbox(shared, u0, roleID, u0)
+	// a second role mailbox whose store has one mailbox more than the first (its mailbox row ids are shifted by one)
+	if deskID, err := db.CreateRoleMailbox(shared, "desk@example.com", domID, ""); err == nil {
+		db.AssignUserToRoleMailbox(shared, u0, deskID, u0)
+		cfg := *w.LCfg
+		cfg.Delivery.DefaultFolder = "DeskExtra"
+		deliverCfg(w, &cfg, "sender@example.org", []string{"desk@example.com"}, "From: a@b\r\nTo: desk@example.com\r\nSubject: first\r\n\r\nfirst\r\n")
+	}
 
 	// full@example.com holds more than the quota limit used by the quota transactions
 	{
@@ -463,6 +488,18 @@ func main() {
 			txs = append(txs, txCase{s, []string{"u1@example.com"}, 0, false, false, false})
 			txs = append(txs, txCase{s, []string{"u2@example.com", "NEW", "team@example.com", "u2@example.com"}, 0, false, true, false})
 		}
+		// both role mailboxes in one transaction and in consecutive ones, into a folder neither has yet, and as spam
+		txs = append(txs, txCase{0, []string{"team@example.com", "desk@example.com"}, 2, false, false, false})
+		txs = append(txs, txCase{1, []string{"desk@example.com", "team@example.com", "u1@example.com"}, 2, false, false, false})
+		txs = append(txs, txCase{0, []string{"team@example.com", "desk@example.com"}, 1, false, false, false})
+		txs = append(txs, txCase{0, []string{"desk@example.com"}, 1, true, false, false})
+		// the delivery folder of an existing user is renamed away between two deliveries to it
+		txs = append(txs, txCase{0, []string{"u3@example.com"}, 1, false, false, false})
+		txs = append(txs, txCase{-1, []string{"u3@example.com"}, 1, false, false, false})
+		txs = append(txs, txCase{0, []string{"u3@example.com"}, 1, false, false, false})
+		txs = append(txs, txCase{0, []string{"u3@example.com"}, 0, true, false, false})
+		txs = append(txs, txCase{-2, []string{"u3@example.com"}, 0, true, false, false})
+		txs = append(txs, txCase{0, []string{"u3@example.com"}, 0, true, false, false})
 		// quota on: the over-quota recipient first, in the middle, last, twice, alone; the others are new users and the role
 		for _, rc := range [][]string{{"FULL", "NEW"}, {"NEW", "FULL", "NEW"}, {"NEW", "FULL"}, {"FULL", "team@example.com", "FULL", "NEW"}, {"FULL"}, {"FULL", "FULL", "NEW", "NEW"}} {
 			txs = append(txs, txCase{0, rc, 0, false, false, true})
@@ -471,7 +508,7 @@ func main() {
 		if o.Thorough {
 			n = 1500
 		}
-		pool := []string{"u0@example.com", "u1@example.com", "u2@example.com", "u3@example.com", "NEW", "NEW", "team@example.com", "other@other.org"}
+		pool := []string{"u0@example.com", "u1@example.com", "u2@example.com", "u3@example.com", "NEW", "NEW", "team@example.com", "desk@example.com", "other@other.org"}
 		for i := 0; i < n; i++ {
 			k := 1 + e.rng.Intn(5)
 			var rc []string
